@@ -18,6 +18,8 @@ class It:
             raise StopIteration
         if self.end == "inst":
             raise StopIteration()
+        if self.end == "instv":
+            raise StopIteration(9)
         if self.end == "errE":
             raise Exception("boom")
         if self.end == "errB":
@@ -126,12 +128,17 @@ def mk_nextd(p):
     return iter(p)
 def fin_nextd(w):
     return [next(w, -1), next(w, -1), next(w, -1)]
-MK = {"for": same, "listcomp": same, "setcomp": same, "dictcomp": same, "genexp": mk_genexp, "starcall": same,
+def deleg(p):
+    r = yield from p
+    yield [r]
+def mk_yfv(p):
+    return deleg(p)
+MK = {"yfv": mk_yfv, "for": same, "listcomp": same, "setcomp": same, "dictcomp": same, "genexp": mk_genexp, "starcall": same,
       "list": same, "tuple": same, "set": same, "sum": same, "min": same, "max": same, "sorted": same,
       "zip": mk_zip, "zip2": mk_zip2, "map": mk_map, "filter": mk_filter, "enumerate": mk_enumerate,
       "join": mk_join, "joinmap": mk_joinmap, "star": same, "unpack2": same, "any": same, "all": same,
       "in": same, "nextd": mk_nextd}
-FIN = {"for": fin_for, "listcomp": fin_listcomp, "setcomp": fin_setcomp, "dictcomp": fin_dictcomp, "genexp": fin_genexp,
+FIN = {"yfv": fin_list, "for": fin_for, "listcomp": fin_listcomp, "setcomp": fin_setcomp, "dictcomp": fin_dictcomp, "genexp": fin_genexp,
        "starcall": fin_starcall, "list": fin_list, "tuple": fin_tuple, "set": fin_set, "sum": fin_sum, "min": fin_min,
        "max": fin_max, "sorted": fin_sorted, "zip": fin_pairs, "zip2": fin_pairs, "map": fin_list, "filter": fin_list,
        "enumerate": fin_pairs, "join": fin_join, "joinmap": fin_join, "star": fin_star, "unpack2": fin_unpack2,
